@@ -152,6 +152,9 @@ class SimSocket:
         if self.net.send_plan is not None:
             p = self.net.send_plan(self, len(data), free)
             if p is not None:
+                if p <= 0:  # spurious EWOULDBLOCK although select() reported the socket writable (allowed by POSIX)
+                    self.net.send_calls.append((self.name, len(data), 0))
+                    raise BlockingIOError(errno.EWOULDBLOCK, "would block")
                 n = max(1, min(n, p))
         self.peer.rx.extend(data[:n])
         self.total_sent += n
